@@ -211,6 +211,9 @@ def cmd_text(ws, l):
     if t.get("slow"):
         # a command that is still running when the build is interrupted (a shell loop: killing the shell ends it)
         L.append("i=0; while [ $i -lt %d ]; do sleep 0.1; i=$((i+1)); done" % int(t["slow"]))
+    if t.get("failif"):
+        # fails while a file outside inputs / outputs exists: a failure that does not change the target's key
+        L.append('if [ -e "$GROG_WORKSPACE_ROOT/' + t["failif"] + '" ]; then exit 3; fi')
     beh = t.get("beh", 0)
     if beh == 1:
         L.append("exit 3")
@@ -219,7 +222,9 @@ def cmd_text(ws, l):
     if beh >= 3:
         # the script ENDS with a statement whose failure `set -e` does not turn into an abort (or a subshell / child exit):
         # the exit status of the script is the status of that last statement
-        L.append({3: "false && true", 4: "! true", 5: "(exit 3)", 6: "sh -c 'exit 4'"}.get(beh, "exit 5"))
+        L.append({3: "false && true", 4: "! true", 5: "(exit 3)", 6: "sh -c 'exit 4'",
+                  # overruns its 300 ms timeout and exits 0 when it is asked to terminate (graceful shutdown)
+                  7: "trap 'exit 0' TERM; sleep 3 & wait $!"}.get(beh, "exit 5"))
         return "\n".join(L)
     L.append('W="$GROG_WORKSPACE_ROOT"')
     L.append('c="$(mktemp)"')
@@ -327,7 +332,7 @@ def build_files(ws):
             d["environment_variables"] = dict(t["env"])
         if t.get("checks"):
             d["output_checks"] = [check_cmd(c) for c in t["checks"]]
-        if t.get("beh", 0) == 2:
+        if t.get("beh", 0) in (2, 7):
             d["timeout"] = "300ms"
         pk.setdefault(t["pkg"], {"targets": [], "aliases": []})["targets"].append(d)
     for l, a in sorted(ws["aliases"].items()):
